@@ -266,7 +266,7 @@ def run(tier):
         "lists as supported (Listed in Blas.tla); negative vector strides and aliased operands are not generated",
         "compile-time rejection is observed by compiling harness/replay_blas_probe.cpp per form and element type",
     ]
-    return rep.finish(level="trace_validation",
+    return rep.finish(level="model_checking",
                       rule="BlasGen.tla enumerates operation x form x element type x operand layout variants x sizes x scalars; every case is "
                            "executed once on pseudo-random integer data; Blas.tla checks result = mathematical definition, frame (inputs, guard "
                            "cells, heap pads unchanged) and that rejections hit only combinations not listed as supported; non-trivial = some size >= 2",
